@@ -199,6 +199,9 @@ func genReconn(r *Rng, prop string) *Scenario {
 	if r.chance(0.2) {
 		cfg.User, cfg.Pass = "u", "p"
 	}
+	if r.chance(0.12) {
+		cfg.ProtoLevel3 = true // MQTT 3.1: same flows, CONNECT announces protocol level 3
+	}
 	if r.chance(0.2) {
 		cfg.WillTopic, cfg.WillPay, cfg.WillQoS, cfg.WillRetain = "w", "bye", byte(r.IntN(3)), r.chance(0.5)
 	}
